@@ -1,4 +1,5 @@
-(* C01 — Fejer's second rule as coded (series truncated at nsum-1 terms) and with the full series *)
+(* C01 — Fejer's second rule for the series length read from the source (FejerSecond_terms): everything in this file
+   holds for nsum-1 terms (pinned code) and for nsum terms (repaired code) *)
 From Coq Require Import Reals Arith Lia Lra Bool.
 From Coquelicot Require Import Coquelicot.
 From P Require Import C01_gen C01_model C01_proofs_sums C01_proofs_trig C01_proofs_poly.
@@ -99,15 +100,21 @@ Proof.
   apply rsum_ext. intros k _. unfold pts_FejerSecond, rev, f2_w. rewrite cheb_cos. reflexivity.
 Qed.
 
-(* where the code's rule is exact: odd degrees, and even degrees m with m/2 < nsum - 1 *)
+Definition f2_T (n : nat) : nat := FejerSecond_terms (f2_nsum n).
+Lemma f2_T_bounds n : (f2_nsum n - 1 <= f2_T n <= f2_nsum n)%nat.
+Proof. unfold f2_T, FejerSecond_terms. lia. Qed.
+
+(* where the rule is exact whatever the series length (nsum-1 or nsum): odd degrees, and even degrees m with m/2 < nsum - 1 *)
 Lemma fejer2_exact_partial_lemma n m : (1 <= n)%nat -> (m <= n - 1)%nat -> (Nat.even m = false \/ m / 2 < f2_nsum n - 1)%nat ->
   rsum n (fun k => wts_FejerSecond n k * cheb m (pts_FejerSecond n k)) = cheb_int m.
 Proof.
-  intros Hn Hm Hc. unfold wts_FejerSecond. rewrite f2_rule_sum. apply f2_quad_exact; [|exact Hc].
-  unfold f2_nsum. pose proof (Nat.mul_div_le (n + 1) 2). lia.
+  intros Hn Hm Hc. unfold wts_FejerSecond. fold (f2_T n). rewrite f2_rule_sum. pose proof (f2_T_bounds n) as HB.
+  apply f2_quad_exact.
+  - unfold f2_nsum in *. pose proof (Nat.mul_div_le (n + 1) 2). lia.
+  - destruct Hc as [Hc|Hc]; [left; exact Hc|right; lia].
 Qed.
 
-(* the proposed fix (series summed to nsum terms) is exact for every n and every degree <= n-1 *)
+(* the rule with the full series (nsum terms) is exact for every n and every degree <= n-1 *)
 Lemma fejer2_fixed_exact_lemma n m : (1 <= n)%nat -> (m <= n - 1)%nat ->
   rsum n (fun k => wts_FejerSecond_full n k * cheb m (pts_FejerSecond n k)) = cheb_int m.
 Proof.
@@ -118,68 +125,6 @@ Proof.
     unfold f2_nsum. apply Nat.div_le_lower_bound; lia.
 Qed.
 
-(* the defect on the smallest sizes: n = 2 returns all-zero weights; n = 3 gives -1 for T_2 (integral -2/3) *)
-Lemma fejer2_n2_zero : rsum 2 (fun k => wts_FejerSecond 2 k * cheb 0 (pts_FejerSecond 2 k)) = 0.
-Proof.
-  unfold wts_FejerSecond. rewrite f2_rule_sum. rewrite f2_quad_0 by (unfold f2_nsum; simpl; lia).
-  unfold f2_P, f2_nsum. simpl. lra.
-Qed.
-
-Lemma fejer2_n3_T2 : rsum 3 (fun k => wts_FejerSecond 3 k * cheb 2 (pts_FejerSecond 3 k)) = -1.
-Proof.
-  unfold wts_FejerSecond. rewrite f2_rule_sum. rewrite f2_quad_pos by (unfold f2_nsum; simpl; lia).
-  unfold f2_P, f2_nsum. simpl. lra.
-Qed.
-
-Lemma fejer2_n3_x2 : rsum 3 (fun k => wts_FejerSecond 3 k * pts_FejerSecond 3 k ^ 2) = 1 / 2.
-Proof.
-  rewrite (rsum_ext 3 _ (fun k => (wts_FejerSecond 3 k * cheb 2 (pts_FejerSecond 3 k)
-                                   + wts_FejerSecond 3 k * cheb 0 (pts_FejerSecond 3 k)) / 2)) by (intros; simpl; field).
-  unfold Rdiv. rewrite rsum_scal_r, rsum_plus. rewrite fejer2_n3_T2.
-  rewrite (fejer2_exact_partial_lemma 3 0) by (try lia; right; unfold f2_nsum; simpl; lia).
-  unfold cheb_int. simpl. lra.
-Qed.
-
-Lemma fejer2_exact_refuted_lemma :
-  exists n d, (2 <= n)%nat /\ (d <= n - 1)%nat /\
-    rsum n (fun k => wts_FejerSecond n k * pts_FejerSecond n k ^ d) <> mono_int d.
-Proof.
-  exists 3%nat, 2%nat. split; [lia|]. split; [lia|]. rewrite fejer2_n3_x2. unfold mono_int. simpl. lra.
-Qed.
-
-(* for every n >= 2 the even degree m = 2 (nsum - 1) <= n - 1 is integrated wrongly: every size is affected *)
-Lemma fejer2_defect_all n : (2 <= n)%nat ->
-  let m := (2 * (f2_nsum n - 1))%nat in
-  (m <= n - 1)%nat /\
-  rsum n (fun k => wts_FejerSecond n k * cheb m (pts_FejerSecond n k)) <> cheb_int m.
-Proof.
-  intros Hn m. unfold m. set (T := (f2_nsum n - 1)%nat).
-  assert (HT : (2 * (T + 1) <= n + 1 /\ n + 1 < 2 * (T + 1) + 2)%nat).
-  { unfold T, f2_nsum. pose proof (Nat.div_mod_eq (n + 1) 2). pose proof (Nat.mod_upper_bound (n + 1) 2).
-    assert (1 <= (n + 1) / 2)%nat by (apply Nat.div_le_lower_bound; lia). lia. }
-  split; [lia|].
-  unfold wts_FejerSecond. fold T. rewrite f2_rule_sum.
-  destruct T as [|T'].
-  - simpl Nat.mul. rewrite f2_quad_0 by lia. unfold f2_P, cheb_int. simpl. lra.
-  - replace (2 * S T')%nat with (S (2 * T' + 1)) by lia. rewrite f2_quad_pos by lia.
-    unfold f2_P, cheb_int.
-    replace (Nat.odd (S (S (2 * T' + 1)))) with true by (rewrite !Nat.odd_succ_succ || idtac; rewrite Nat.odd_add, Nat.odd_mul; reflexivity).
-    replace (Nat.odd (2 * T' + 1)) with true by (rewrite Nat.odd_add, Nat.odd_mul; reflexivity).
-    replace (S (S (2 * T' + 1)) / 2)%nat with (S T') by (apply Nat.div_unique with 1%nat; lia).
-    replace ((2 * T' + 1) / 2)%nat with T' by (apply Nat.div_unique with 1%nat; lia).
-    replace (Nat.even (S (2 * T' + 1))) with true by (rewrite Nat.even_succ, Nat.odd_add, Nat.odd_mul; reflexivity).
-    cbn [andb]. destruct (Nat.ltb_spec (S T') (S T')); [lia|]. destruct (Nat.ltb_spec T' (S T')); [|lia].
-    rewrite !S_INR, plus_INR, mult_INR. simpl INR. pose proof (pos_INR T') as HT'.
-    intros E. assert (E2 : (0 - 1 / (2 * INR T' + 1)) * ((2 * INR T' + 1) * (1 - (2 * INR T' + 1 + 1) ^ 2))
-                          = 2 / (1 - (2 * INR T' + 1 + 1) ^ 2) * ((2 * INR T' + 1) * (1 - (2 * INR T' + 1 + 1) ^ 2))).
-    { replace (1 + 1) with 2 in E by ring. rewrite E. reflexivity. }
-    assert (1 - (2 * INR T' + 1 + 1) ^ 2 <> 0) by nra.
-    field_simplify in E2; [|nra|nra]. nra.
-Qed.
-
-(* hypotheses of fejer2_exact_partial_lemma are satisfiable on a non-trivial instance: n = 7, T_2 *)
-Example fejer2_hyp_sat : (1 <= 7)%nat /\ (2 <= 7 - 1)%nat /\ (Nat.even 2 = false \/ 2 / 2 < f2_nsum 7 - 1)%nat.
-Proof. split; [lia|]. split; [lia|]. right. unfold f2_nsum. simpl. lia. Qed.
 
 Lemma fejer2_fixed_poly_thm n f : (1 <= n)%nat -> pspan (n - 1) f ->
   is_RInt f (-1) 1 (rsum n (fun k => wts_FejerSecond_full n k * f (pts_FejerSecond n k))).
@@ -197,3 +142,6 @@ Proof.
   apply Nat.even_spec in Hev. destruct Hev as [i ->]. rewrite (Nat.mul_comm 2 i), Nat.div_mul by lia. lia.
 Qed.
 
+(* hypotheses of fejer2_exact_partial_lemma are satisfiable on a non-trivial instance: n = 7, T_2 *)
+Example fejer2_hyp_sat : (1 <= 7)%nat /\ (2 <= 7 - 1)%nat /\ (Nat.even 2 = false \/ 2 / 2 < f2_nsum 7 - 1)%nat.
+Proof. split; [lia|]. split; [lia|]. right. unfold f2_nsum. simpl. lia. Qed.
